@@ -457,6 +457,18 @@ def atom_name(i):
 def rf_norm(n, d):
     if not n:
         return ({}, {(): Fraction(1)})
+    if CTX.eager:
+        rules = CTX.all_rules()
+        if rules:
+            n = reduce_poly(n, None, rules)
+            if not n:
+                return ({}, {(): Fraction(1)})
+            if not p_is_const(d):
+                d = reduce_poly(d, None, rules)
+                if len(d) > 1:
+                    q = p_divide(n, d, 4000)
+                    if q is not None:
+                        return (q, {(): Fraction(1)})
     if p_is_const(d):
         c = d[()]
         if c != 1:
@@ -591,6 +603,7 @@ class Ctx:
         self.nonneg = set()  # atom indices known >= 0 (sqrt atoms automatically)
         self.principal = set()  # rf_key(nf(u)) of terms u with u in (-pi, pi]  (so atan2(sin u, cos u) = u)
         self.log = []  # axiom instances used
+        self.eager = False  # reduce modulo the rules after every arithmetic step (keeps |q|^2 -> 1 etc. from piling up)
 
     def all_rules(self):
         return self.auto_rules + self.rules
